@@ -5,16 +5,28 @@
 (* Observable events (each is one recorded (input, output) pair of the     *)
 (* real code; the machine keeps no state between them apart from a count): *)
 (*                                                                         *)
-(*  Call(m, pos, kw, bytes, srv)                                           *)
+(*  Call(m, pos, kw, bytes, tx, srv)                                       *)
 (*     the caller invoked method m with positional values pos and keyword  *)
-(*     values kw; `bytes` is everything scales wrote to the socket; `srv`  *)
-(*     is what the Thrift library's generated Processor decoded from the   *)
-(*     payload (name bytes, message type, seqid, argument fields).         *)
+(*     values kw; `bytes` is everything the peer received for the call on  *)
+(*     its (healthy, open) connection, i.e. the concatenation of what the  *)
+(*     socket accepted from every send() -- one send() may accept only     *)
+(*     part of the buffer it is offered; `tx` (optional) lists the         *)
+(*     accepted sizes; `srv` is what the Thrift library's generated        *)
+(*     Processor decoded from the payload (name bytes, message type,       *)
+(*     seqid, argument fields; ok = 0 when it never saw a complete frame). *)
+(*     The connection stays open and writable until the call has ended     *)
+(*     (reply, error or timeout), so a frame that was announced by its     *)
+(*     length word but never completed shows as Len(bytes) - 4 # length.   *)
 (*  Reply(m, stream, out, ref)                                             *)
 (*     `stream` is the byte stream the peer sent before closing; `out` is  *)
 (*     what the caller of m observed when the stream was delivered with a  *)
 (*     scripted chunking, `ref` what it observed when every socket read    *)
 (*     got all the bytes it asked for.                                     *)
+(*  Write(variant, payload, accepts, rx)                                   *)
+(*     transport-level: the transport was handed `payload` for one         *)
+(*     transaction on a fresh connection whose socket accepted the sizes   *)
+(*     accepts[i][2] of the offered accepts[i][1] bytes per send(); `rx`   *)
+(*     is what the peer had received when the connection went quiet.       *)
 (*  Read(stream, rets, refs)                                               *)
 (*     transport-level: consecutive transactions on one connection whose   *)
 (*     peer sends `stream`; rets[i] / refs[i] = what transaction i handed  *)
@@ -23,6 +35,9 @@
 (*                                                                         *)
 (* Clauses (exactly the sentences of the property):                        *)
 (*  C14.framePrefix       bytes sent = 4-byte big-endian length + payload  *)
+(*                        (exactly that many bytes: nothing missing,       *)
+(*                        nothing after them), however the socket split    *)
+(*                        the acceptance of the bytes across send() calls  *)
 (*  C14.callBytes         payload = strict binary-protocol call of m with  *)
 (*                        the given arguments (CALL, or ONEWAY for oneway) *)
 (*  C14.processorDecodes  the library's Processor decoded the payload to   *)
@@ -52,8 +67,13 @@ avars == <<nseen>>
 AInit == nseen = 0
 
 \* ---------------------------------------------------------------- Call
+\* harness sanity: the accepted sizes account for exactly the bytes the peer received
+SumSeq(s) == FoldLeft(LAMBDA acc, x : acc + x, 0, s)
+TxConsistent(tx, bytes) == (\A i \in DOMAIN tx : tx[i] >= 0) /\ SumSeq(tx) = Len(bytes)
+
 CallCheck(e) ==
   IF ~CallWellFormed(e.m, e.pos, e.kw) THEN "harness.callWellFormed"
+  ELSE IF "tx" \in DOMAIN e /\ ~TxConsistent(e.tx, e.bytes) THEN "harness.txAccepted"
   ELSE IF Len(e.bytes) < 4 \/ RdI32(e.bytes, 0) # Len(e.bytes) - 4 THEN "C14.framePrefix"
   ELSE LET payload == SubSeq(e.bytes, 5, Len(e.bytes))
            pm == ParseMsg(payload)
@@ -95,6 +115,14 @@ ReplyCheck(e) ==
           ELSE IF c2 # "ok" THEN c2
           ELSE IF ~OutEq(e.out, e.ref) THEN "C14.chunkIndependent"
           ELSE "ok"
+
+\* ---------------------------------------------------------------- Write
+\* The bytes sent for one transaction are the 4-byte length plus the payload, whatever
+\* part of each offered buffer the socket accepted.
+WriteCheck(e) ==
+  IF ~TxConsistent([i \in DOMAIN e.accepts |-> e.accepts[i][2]], e.rx) THEN "harness.txAccepted"
+  ELSE IF e.rx # Frame(e.payload) THEN "C14.framePrefix"
+  ELSE "ok"
 
 \* ---------------------------------------------------------------- Read
 \* r = [kind \in {"frame", "error"}, bytes, cls]
